@@ -353,115 +353,121 @@ func checkC08(w *World, r *Report) {
 		r.Check(len(callers) > 0 && len(bad) == 0, "R08.13", "readers of raw tokens", token.NoPos, strings.Join(callers, ","), "raw tokens (including separators) are read by {"+strings.Join(callers, ",")+"}: a hand-written skip of `one separator` fails when a comment between two pieces has blanks on both sides")
 	})
 
+	r.Rule("R08.14", "'+' outside quotes is always the concatenation token: in lexStmt the Plus item is emitted exactly when the rune read is '+', whatever follows it (a comment may follow the '+' directly)", 1)
+	r.guard("R08.14", func() { c08PunctToken(w, r, "R08.14", '+', "itemPlus") })
+
 	r.Rule("R08.8", "every line of a multi-line double-quoted string contributes to the result: in trimWhitespace's per-line loop the accumulation (result += line, or Builder.WriteString) dominates every way back to the loop head — no line (blank ones included) is skipped together with its line break", 1)
 	r.Rule("R08.9", "lines are decoded independently: apart from the result and the loop counter, no value computed from one line is carried into the next iteration of trimWhitespace's per-line loop (every other loop-carried variable re-enters the loop as a constant)", 1)
-	r.guard("R08.8", func() {
-		f := w.SSAFunc(w.Func("parse", "trimWhitespace"))
-		if f == nil {
-			panic(undecided{"parse.trimWhitespace has no SSA body"})
-		}
-		loops := ssaLoops(f)
-		// the per-line loop: the one that indexes the result of strings.Split
-		var line *ssaLoop
-		for i := range loops {
-			for b := range loops[i].body() {
-				for _, in := range b.Instrs {
-					if ia, ok := in.(*ssa.IndexAddr); ok {
-						if c, ok := ia.X.(*ssa.Call); ok {
-							if sc := c.Call.StaticCallee(); sc != nil && sc.String() == "strings.Split" {
-								line = &loops[i]
-							}
+	r.guard("R08.8", func() { c08LineLoop(w, r, "R08.8", "R08.9") })
+}
+
+// c08LineLoop: the per-line loop of trimWhitespace (shared by C08 and C10).
+func c08LineLoop(w *World, r *Report, rule8, rule9 string) {
+	f := w.SSAFunc(w.Func("parse", "trimWhitespace"))
+	if f == nil {
+		panic(undecided{"parse.trimWhitespace has no SSA body"})
+	}
+	loops := ssaLoops(f)
+	// the per-line loop: the one that indexes the result of strings.Split
+	var line *ssaLoop
+	for i := range loops {
+		for b := range loops[i].body() {
+			for _, in := range b.Instrs {
+				if ia, ok := in.(*ssa.IndexAddr); ok {
+					if c, ok := ia.X.(*ssa.Call); ok {
+						if sc := c.Call.StaticCallee(); sc != nil && sc.String() == "strings.Split" {
+							line = &loops[i]
 						}
 					}
 				}
 			}
 		}
-		if line == nil {
-			panic(undecided{"per-line loop over strings.Split(...) not found in trimWhitespace"})
+	}
+	if line == nil {
+		panic(undecided{"per-line loop over strings.Split(...) not found in trimWhitespace"})
+	}
+	body := line.body()
+	// accumulation instructions
+	var accBlocks []*ssa.BasicBlock
+	var accPhi *ssa.Phi
+	for _, in := range line.Header.Instrs {
+		phi, ok := in.(*ssa.Phi)
+		if !ok {
+			continue
 		}
-		body := line.body()
-		// accumulation instructions
-		var accBlocks []*ssa.BasicBlock
-		var accPhi *ssa.Phi
-		for _, in := range line.Header.Instrs {
-			phi, ok := in.(*ssa.Phi)
-			if !ok {
-				continue
+		if bt, ok := phi.Type().Underlying().(*types.Basic); !ok || bt.Kind() != types.String {
+			continue
+		}
+		for _, l := range line.Latches {
+			if bo, ok := phiEdge(phi, l).(*ssa.BinOp); ok && bo.Op == token.ADD && bo.X == phi {
+				accPhi = phi
+				accBlocks = append(accBlocks, bo.Block())
 			}
-			if bt, ok := phi.Type().Underlying().(*types.Basic); !ok || bt.Kind() != types.String {
-				continue
-			}
-			for _, l := range line.Latches {
-				if bo, ok := phiEdge(phi, l).(*ssa.BinOp); ok && bo.Op == token.ADD && bo.X == phi {
-					accPhi = phi
-					accBlocks = append(accBlocks, bo.Block())
+		}
+	}
+	for b := range body {
+		for _, in := range b.Instrs {
+			if c, ok := in.(*ssa.Call); ok {
+				if sc := c.Call.StaticCallee(); sc != nil && (sc.String() == "(*strings.Builder).WriteString" || sc.String() == "(*bytes.Buffer).WriteString") {
+					accBlocks = append(accBlocks, b)
 				}
 			}
 		}
-		for b := range body {
-			for _, in := range b.Instrs {
-				if c, ok := in.(*ssa.Call); ok {
-					if sc := c.Call.StaticCallee(); sc != nil && (sc.String() == "(*strings.Builder).WriteString" || sc.String() == "(*bytes.Buffer).WriteString") {
-						accBlocks = append(accBlocks, b)
-					}
+	}
+	if len(accBlocks) == 0 {
+		r.Fail(rule8, "trimWhitespace per-line loop", f.Pos(), "no accumulation of the decoded line found in the loop (result += line / WriteString)")
+	} else {
+		ok := true
+		why := ""
+		for _, l := range line.Latches {
+			dom := false
+			for _, a := range accBlocks {
+				if a.Dominates(l) {
+					dom = true
 				}
+			}
+			if accPhi != nil {
+				if bo, isAdd := phiEdge(accPhi, l).(*ssa.BinOp); !isAdd || bo.X != accPhi {
+					dom = false
+				}
+			}
+			if !dom {
+				ok = false
+				why = fmt.Sprintf("the loop head is re-entered from block %d (%s) without the line having been appended: that line and its line break vanish from the argument", l.Index, l.Comment)
 			}
 		}
-		if len(accBlocks) == 0 {
-			r.Fail("R08.8", "trimWhitespace per-line loop", f.Pos(), "no accumulation of the decoded line found in the loop (result += line / WriteString)")
-		} else {
-			ok := true
-			why := ""
-			for _, l := range line.Latches {
-				dom := false
-				for _, a := range accBlocks {
-					if a.Dominates(l) {
-						dom = true
-					}
-				}
-				if accPhi != nil {
-					if bo, isAdd := phiEdge(accPhi, l).(*ssa.BinOp); !isAdd || bo.X != accPhi {
-						dom = false
-					}
-				}
-				if !dom {
-					ok = false
-					why = fmt.Sprintf("the loop head is re-entered from block %d (%s) without the line having been appended: that line and its line break vanish from the argument", l.Index, l.Comment)
-				}
-			}
-			r.Check(ok, "R08.8", "trimWhitespace per-line loop", f.Pos(), fmt.Sprintf("accumulation dominates all %d back edges", len(line.Latches)), why)
+		r.Check(ok, rule8, "trimWhitespace per-line loop", f.Pos(), fmt.Sprintf("accumulation dominates all %d back edges", len(line.Latches)), why)
+	}
+	// R08.9
+	n := 0
+	for _, in := range line.Header.Instrs {
+		phi, ok := in.(*ssa.Phi)
+		if !ok {
+			continue
 		}
-		// R08.9
-		n := 0
-		for _, in := range line.Header.Instrs {
-			phi, ok := in.(*ssa.Phi)
-			if !ok {
-				continue
-			}
-			if phi == accPhi {
-				continue
-			}
-			// induction variable: back edge = phi + const
-			ind := true
-			for _, l := range line.Latches {
-				bo, ok := phiEdge(phi, l).(*ssa.BinOp)
-				if !ok || bo.Op != token.ADD || bo.X != phi {
-					ind = false
-				} else if _, isC := bo.Y.(*ssa.Const); !isC {
-					ind = false
-				}
-			}
-			if ind {
-				continue
-			}
-			n++
-			ok2 := loopCarriedIndependent(phi, *line)
-			r.Check(ok2, "R08.9", "trimWhitespace loop-carried "+phi.Comment, phi.Pos(), "re-enters the loop as a constant", "variable "+phi.Comment+" carries a value computed from one line into the following lines (e.g. a CRLF flag that is not reset chops the last character of later LF lines)")
+		if phi == accPhi {
+			continue
 		}
-		if n == 0 {
-			r.OK("R08.9", "trimWhitespace: no loop-carried state", f.Pos(), "only the result and the loop counter are loop-carried")
+		// induction variable: back edge = phi + const
+		ind := true
+		for _, l := range line.Latches {
+			bo, ok := phiEdge(phi, l).(*ssa.BinOp)
+			if !ok || bo.Op != token.ADD || bo.X != phi {
+				ind = false
+			} else if _, isC := bo.Y.(*ssa.Const); !isC {
+				ind = false
+			}
 		}
-	})
+		if ind {
+			continue
+		}
+		n++
+		ok2 := loopCarriedIndependent(phi, *line)
+		r.Check(ok2, rule9, "trimWhitespace loop-carried "+phi.Comment, phi.Pos(), "re-enters the loop as a constant", "variable "+phi.Comment+" carries a value computed from one line into the following lines (e.g. a CRLF flag that is not reset chops the last character of later LF lines)")
+	}
+	if n == 0 {
+		r.OK(rule9, "trimWhitespace: no loop-carried state", f.Pos(), "only the result and the loop counter are loop-carried")
+	}
 }
 
 // c10StmtStar: the loop of stmtStar has an accumulator that, on every way
@@ -769,6 +775,74 @@ func c08RawTokenReaders(w *World) (readers, bad []string) {
 	return readers, bad
 }
 
+// c08PunctToken: in lexStmt the item kind is emitted, within one iteration,
+// exactly for the rune ch — for no other rune, and for ch whatever else the
+// lexer looks at.
+func c08PunctToken(w *World, r *Report, rule string, ch rune, item string) {
+	f := w.SSAFunc(w.Func("parse", "lexStmt"))
+	emit := w.SSAFunc(w.Method("parse", "lexer", "emit"))
+	next := w.SSAFunc(w.Method("parse", "lexer", "next"))
+	kind, okK := pkgConstInt(w, "parse", item)
+	if f == nil || emit == nil || !okK {
+		panic(undecided{"parse.lexStmt / lexer.emit / " + item})
+	}
+	sym := NewSym(w)
+	sym.Expand = true
+	reached := pcZ
+	n := 0
+	var read *ssa.Call
+	for _, b := range f.Blocks {
+		for _, in := range b.Instrs {
+			c, ok := in.(*ssa.Call)
+			if !ok {
+				continue
+			}
+			if c.Call.StaticCallee() == next && read == nil {
+				read = c
+			}
+			if c.Call.StaticCallee() != emit || len(c.Call.Args) != 2 {
+				continue
+			}
+			if k, isK := intConstOf(c.Call.Args[1]); !isK || k != kind {
+				continue
+			}
+			n++
+			// from where the rune is read (what was looked at before concerns the text before it)
+			if read == nil || !(read.Block() == b || read.Block().Dominates(b)) {
+				panic(undecided{"lexStmt: emit(" + item + ") not after the rune is read"})
+			}
+			reached = pcOrF(reached, sym.PathCond(read.Block(), b, nil))
+		}
+	}
+	if n == 0 || read == nil {
+		panic(undecided{"lexStmt: emit(" + item + ")"})
+	}
+	subj := sym.Key(read, nil)
+	problems := ""
+	for _, v := range []int64{int64(ch), int64(ch) + 1, 'a', ' ', -1} {
+		hit, decided := pcEvalFree(reached, func(a *pcAtom) (bool, bool) {
+			if a.subj == subj {
+				return a.set.contains(v), true
+			}
+			if bo, ok := a.v.(*ssa.BinOp); ok && a.subj != "" {
+				for _, side := range []ssa.Value{bo.X, bo.Y} {
+					if side == ssa.Value(read) {
+						return a.set.contains(v), true
+					}
+				}
+			}
+			return false, false
+		})
+		switch {
+		case !decided && v == int64(ch):
+			problems = fmt.Sprintf("whether %q becomes the token depends on more than the rune itself (what follows it, lexer state)", ch)
+		case decided && hit != (v == int64(ch)):
+			problems = fmt.Sprintf("for the rune %q the token is emitted: %v", rune(v), hit)
+		}
+	}
+	r.Check(problems == "", rule, fmt.Sprintf("lexStmt emits %s for %q", item, ch), f.Pos(), "exactly for that rune", problems+": e.g. \"a\" +/* c */ \"b\" is no longer a concatenation (the '+' is glued to what follows and lexed as an unquoted word)")
+}
+
 func checkC10(w *World, r *Report) {
 	r.NotDecided = []string{
 		"equality of trees over all re-layouts and re-quotings of a text (a relation over runtime inputs); only the structural channel from tokens to nodes is decided",
@@ -883,6 +957,72 @@ func checkC10(w *World, r *Report) {
 
 	r.Rule("R10.7", "equivalent quotings decode alike: the escape-substitution state flag is false after every non-empty piece (same obligation as R08.7, which this property relies on for 'another quoting form of the same value')", 1)
 	r.guard("R10.7", func() { c08EscapeFlag(w, r, "R10.7") })
+
+	r.Rule("R10.11", "the same value written with other line ends decodes alike: in trimWhitespace's per-line loop nothing computed from one line (a 'this line ended in CR' flag) is carried into the next (the analysis of R08.8/R08.9, which the parse tree's argument depends on)", 2)
+	r.guard("R10.11", func() { c08LineLoop(w, r, "R10.11", "R10.11") })
+
+	r.Rule("R10.12", "interning never gives a statement another statement's argument: the key under which ArgInterner.Intern shares an argument keeps the statement kind and the argument text apart (a struct of the two; a concatenation of keyword and text maps `typedef foo` and `type deffoo` to one key)", 1)
+	r.guard("R10.12", func() {
+		f := w.SSAFunc(w.Method("parse", "ArgInterner", "Intern"))
+		if f == nil || len(f.Params) != 3 {
+			panic(undecided{"parse.ArgInterner.Intern"})
+		}
+		n := 0
+		why := ""
+		for _, b := range f.Blocks {
+			for _, in := range b.Instrs {
+				var key ssa.Value
+				switch x := in.(type) {
+				case *ssa.Lookup:
+					if _, isMap := x.X.Type().Underlying().(*types.Map); isMap {
+						key = x.Index
+					}
+				case *ssa.MapUpdate:
+					key = x.Key
+				}
+				if key == nil {
+					continue
+				}
+				n++
+				st, isStruct := key.Type().Underlying().(*types.Struct)
+				if !isStruct {
+					why = "the key is a " + key.Type().String() + " computed from keyword and text (`" + key.String() + "`), not a pair"
+					continue
+				}
+				// the struct read from a local the two components were stored into, each whole
+				kinds, texts := false, false
+				if ld, isLd := key.(*ssa.UnOp); isLd {
+					if cell, isA := ld.X.(*ssa.Alloc); isA {
+						for _, ref := range *cell.Referrers() {
+							fa, isFA := ref.(*ssa.FieldAddr)
+							if !isFA {
+								continue
+							}
+							for _, r2 := range *fa.Referrers() {
+								stv, isSt := r2.(*ssa.Store)
+								if !isSt {
+									continue
+								}
+								if stv.Val == ssa.Value(f.Params[1]) {
+									kinds = true
+								}
+								if c, isC := stv.Val.(*ssa.Call); isC && c.Call.IsInvoke() && c.Call.Value == ssa.Value(f.Params[2]) && nm(c.Call.Method) == "String" {
+									texts = true
+								}
+							}
+						}
+					}
+				}
+				if st.NumFields() < 2 || !kinds || !texts {
+					why = "the key does not hold the statement kind and the argument text as two components"
+				}
+			}
+		}
+		if n == 0 {
+			panic(undecided{"ArgInterner.Intern: table access"})
+		}
+		r.Check(why == "", "R10.12", "ArgInterner.Intern key", f.Pos(), "struct{kind, text}", why+": two different statements can share one interned argument, so the node built second carries the first one's argument")
+	})
 
 	r.Rule("R10.8", "equivalent quotings and comments decode alike: the column of the opening quote is counted in characters, so a non-ASCII character earlier on the line (in a comment or an earlier piece) does not change how continuation lines are de-indented", 1)
 	r.guard("R10.8", func() { c08QuoteColumn(w, r, "R10.8") })
